@@ -204,6 +204,7 @@ from ... import REAL
 import matplotlib.pyplot as plt
 
 from ...core.dfunction import DFunction
+from ...core.managers import energy_units
 
 
 #from ...utils.types import BasisManagedComplexArray
@@ -939,7 +940,9 @@ class EvolutionSuperOperator(SuperOperator, TimeDependent, Saveable):
             
         if (self.is_in_rwa and sgn == 1) or sgn == -1:
             
-            HOmega = ham.get_RWA_skeleton()
+            # frequencies of the frame multiply times in internal units
+            with energy_units("int"):
+                HOmega = ham.get_RWA_skeleton()
             
             # the superoperator is the identity at the first point of its
             # time axis; the rotating frame is referred to that time
